@@ -227,11 +227,21 @@ void h_level01_only(void)
 	for (k = 0; k < VG_HN; k++) vg_in_b[k] = nondet_uchar();
 	vg_in_n = nondet_size_t();
 	__CPROVER_assume(vg_in_n <= VG_HN && vg_in_n >= COMMON_HEADER_LEN);
+#ifdef VG_CONCRETE
+	/* concrete extreme shape: every byte a constant (name of 'a's filling the header, method -lh0-, sizes/time 0x61..),
+	   checksum computed here; the symbolic execution then runs the real decoder on one concrete maximum-length header */
+	for (k = 0; k < VG_HN; k++) vg_in_b[k] = 0x61;
+	vg_in_b[2] = '-'; vg_in_b[3] = 'l'; vg_in_b[4] = 'h'; vg_in_b[5] = '0'; vg_in_b[6] = '-';
+	vg_in_b[20] = VG_LEVEL;
+#endif
 	__CPROVER_assume(vg_in_b[20] == VG_LEVEL);
 #ifdef VG_FIXHL
 	vg_in_b[0] = VG_FIXHL;
 	vg_in_b[21] = VG_FIXHL - (VG_LEVEL == 0 ? 22 : 25);
 	vg_in_n = VG_HN;
+#endif
+#ifdef VG_CONCRETE
+	{ unsigned csum = 0; for (k = 2; k < (size_t) VG_FIXHL + 2; k++) csum += vg_in_b[k]; vg_in_b[1] = (uint8_t) csum; }
 #endif
 	h = calloc(1, sizeof(LHAFileHeader) + COMMON_HEADER_LEN);
 	__CPROVER_assume(h != NULL);
